@@ -706,4 +706,127 @@ def Decl.pos : Decl → Pos
   | .function _ _ _ p => p
   | .error _ _ _ p => p
 
+
+theorem TypeRef.pos_eq_posOf (t : TypeRef) : t.pos = posOf t := by cases t <;> rfl
+
+set_option hygiene false in
+/-- one-off helper: chase a successful `Option`-monad computation `h` down to its final `some (…, …)` -/
+local macro "crunch_pos" : tactic => `(tactic| repeat' (first
+  | (simp only [Option.some.injEq, Prod.mk.injEq] at h; obtain ⟨rfl, rfl⟩ := h; rfl)
+  | (rw [Option.bind_eq_some_iff] at h; obtain ⟨_, _, h⟩ := h; try dsimp only at h)
+  | split at h
+  | (simp at h; done)))
+
+/-- **whole declarations (all six kinds)**: the recorded position is `spanPos` from the start of the statement
+    (`ts0`, which includes the doc comments) to the remainder after the declaration -/
+theorem typeDecl_pos (fuel : Nat) (c : List String) (ts0 ts : List Token) (d : Decl) (rest : List Token)
+    (h : typeDecl fuel c ts0 ts = some (d, rest)) : d.pos = spanPos ts0 rest := by
+  unfold typeDecl at h
+  simp only [Option.bind_eq_bind, Option.pure_def] at h
+  crunch_pos
+  all_goals (obtain ⟨_, _, _, h⟩ := firstThat_inv h; try dsimp only at h)
+  all_goals crunch_pos
+
+/-- the recorded position of an interface member -/
+def Member.pos : Member → Pos
+  | .m x => x.pos
+  | .p x => x.pos
+
+theorem member_pos (fuel : Nat) (ts0 : List Token) (a : Member) (r : List Token) (h : member fuel ts0 = some (a, r)) :
+    a.pos = spanPos ts0 r := by
+  unfold member at h
+  simp only [Option.bind_eq_bind, Option.pure_def] at h
+  crunch_pos
+  all_goals (obtain ⟨_, _, _, h⟩ := firstThat_inv h; try dsimp only at h)
+  all_goals crunch_pos
+
+/-- **whole declarations**: with `ts0 = cs ++ ts` (`cs` the doc comments in front of the declaration, as in `content`),
+    the position of the declaration is the span of exactly the comments and the consumed tokens -/
+theorem typeDecl_span (fuel : Nat) (c : List String) (cs ts : List Token) (d : Decl) (rest : List Token)
+    (h : typeDecl fuel c (cs ++ ts) ts = some (d, rest)) :
+    ∃ pre, ts = pre ++ rest ∧ d.pos = tokSpan (cs ++ pre) := by
+  obtain ⟨pre, rfl, _⟩ := typeDecl_cov default [] fuel c _ ts d rest h
+  refine ⟨pre, rfl, ?_⟩
+  rw [typeDecl_pos fuel c _ _ d rest h, ← List.append_assoc, spanPos_eq_tokSpan]
+
+/-- **records**: the record's position is the span of everything from the doc comments to the closing `}` /
+    `deriving (…)`, and the fields tile the body between `{` and `}` exactly, each with its own exact span -/
+theorem record_span (fuel : Nat) (c' : List String) (cs ts : List Token) (n : String) (c : List String)
+    (fl : List String) (flp : Pos) (fs : List Field) (dv : Option (List (String × Pos))) (p : Pos) (rest : List Token)
+    (h : typeDecl fuel c' (cs ++ ts) ts = some (.record n c fl flp fs dv p, rest)) :
+    ∃ hd body tl, ts = hd ++ body ++ tl ++ rest ∧ hd ≠ [] ∧ tl ≠ [] ∧ p = tokSpan (cs ++ hd ++ body ++ tl) ∧
+      Tiles FieldSpan fs body := by
+  have hp := typeDecl_pos fuel c' _ _ _ rest h
+  obtain ⟨_, nt, eq, k, tg, lb, body0, rb, dvt, rfl, _, _, _, _, _, _, hm, _⟩ :=
+    typeDecl_record_inv fuel c' _ _ n c fl flp fs dv p rest h
+  obtain ⟨body, rfl, htiles⟩ := many_tiles FieldSpan fuel _ (field fuel)
+    (fun ts a r h => by obtain ⟨pre, h1, _, h2⟩ := field_span fuel ts a r h; exact ⟨pre, h1, h2⟩) fuel _ _ _ hm
+  refine ⟨nt :: eq :: k :: (tg ++ [lb]), body, rb :: dvt, by simp, by simp, by simp, ?_, htiles⟩
+  have hts : cs ++ nt :: eq :: k :: (tg ++ lb :: (body ++ rb :: (dvt ++ rest)))
+      = (cs ++ nt :: eq :: k :: (tg ++ [lb]) ++ body ++ rb :: dvt) ++ rest := by simp
+  show (Decl.record n c fl flp fs dv p).pos = _
+  rw [hp, hts, spanPos_eq_tokSpan]
+
+/-- **a field lies within its record**, and different fields occupy disjoint segments in order (flat reading) -/
+theorem record_field_within (fuel : Nat) (c' : List String) (cs ts : List Token) (n : String) (c : List String)
+    (fl : List String) (flp : Pos) (fs : List Field) (dv : Option (List (String × Pos))) (p : Pos) (rest : List Token)
+    (h : typeDecl fuel c' (cs ++ ts) ts = some (.record n c fl flp fs dv p, rest))
+    {xs ys : List Field} {f : Field} (he : fs = xs ++ f :: ys) :
+    ∃ l q r, cs ++ ts = l ++ q ++ r ++ rest ∧ l ≠ [] ∧ r ≠ [] ∧ q ≠ [] ∧ p = tokSpan (l ++ q ++ r) ∧ f.pos = tokSpan q ∧
+      FieldSpan f q := by
+  obtain ⟨hd, body, tl, rfl, hhd, htl, hp, htiles⟩ := record_span fuel c' cs ts n c fl flp fs dv p rest h
+  obtain ⟨l, q, r, rfl, _, hq, _⟩ := htiles.split he
+  have hq' := hq
+  obtain ⟨cs', nm, colon, st, semi, rfl, _, _, _, _, hpos, _⟩ := hq'
+  refine ⟨cs ++ hd ++ l, _, r ++ tl, by simp, ?_, by simp [htl], by simp, ?_, hpos, hq⟩
+  · cases hd with
+    | nil => exact absurd rfl hhd
+    | cons a hd => simp
+  · rw [hp]; congr 1; simp
+
+/-- `MemberSpan a pre`: the interface member was read from exactly `pre`; a property's type sits right before the
+    final `;`, a method's signature (with its parameters, thrown types and return type nested inside) likewise -/
+def MemberSpan (a : Member) (pre : List Token) : Prop :=
+  a.pos = tokSpan pre ∧
+  match a with
+  | .p x => ∃ l st semi, pre = l ++ st ++ [semi] ∧ l ≠ [] ∧ TSpan x.ty st
+  | .m x => ∃ l sg semi fl fp, pre = l ++ sg ++ [semi] ∧ l ≠ [] ∧ FSpan (.mk fl fp x.params x.throwing x.ret) sg
+
+/-- **methods and properties**: the position of an interface member is the span of exactly the consumed tokens, and
+    the parameters / thrown types / return type (resp. the property type) nest inside it -/
+theorem member_span (fuel : Nat) (ts0 : List Token) (a : Member) (r : List Token) (h : member fuel ts0 = some (a, r)) :
+    ∃ pre, ts0 = pre ++ r ∧ pre ≠ [] ∧ MemberSpan a pre := by
+  have hp := member_pos fuel ts0 a r h
+  obtain ⟨cs, c, _, hcase⟩ := member_inv fuel ts0 a r h
+  rcases hcase with ⟨pk, nt, colon, ts2, semi, n, t, p, rfl, _, _, _, hmem, _, rfl⟩ |
+    ⟨m1, m2, m3, nt, ts5, semi, n, st, co, as, fl, fp, ps, thr, ret, p, rfl, _, _, _, _, _, hmem, _, _, rfl⟩
+  · obtain ⟨st, rfl, _, _, hst⟩ := typeRefL_span fuel _ _ _ hmem
+    have hts : cs ++ pk :: nt :: colon :: (st ++ semi :: r) = (cs ++ pk :: nt :: colon :: (st ++ [semi])) ++ r := by simp
+    refine ⟨cs ++ pk :: nt :: colon :: (st ++ [semi]), hts, by simp, ?_, cs ++ [pk, nt, colon], st, semi, by simp, by simp, hst⟩
+    rw [hp, hts, spanPos_eq_tokSpan]
+  · obtain ⟨sg, rfl, _, hsg⟩ := functionL_span fuel _ _ _ hmem
+    have hts : cs ++ (m1 ++ (m2 ++ (m3 ++ nt :: (sg ++ semi :: r))))
+        = (cs ++ (m1 ++ (m2 ++ (m3 ++ nt :: (sg ++ [semi]))))) ++ r := by simp
+    refine ⟨cs ++ (m1 ++ (m2 ++ (m3 ++ nt :: (sg ++ [semi])))), hts, by simp, ?_,
+      cs ++ (m1 ++ (m2 ++ (m3 ++ [nt]))), sg, semi, fl, fp, by simp, by simp, hsg⟩
+    rw [hp, hts, spanPos_eq_tokSpan]
+
+/-- **interfaces**: the interface's position is the span of everything from the doc comments to the closing `}`, and
+    the members (methods and properties, in source order) tile the body between `{` and `}` exactly -/
+theorem interface_span (fuel : Nat) (c' : List String) (cs ts : List Token) (n : String) (c : List String)
+    (mn : Bool) (fl : List String) (flp : Pos) (methods : List Method) (props : List Prop') (p : Pos) (rest : List Token)
+    (h : typeDecl fuel c' (cs ++ ts) ts = some (.interface n c mn fl flp methods props p, rest)) :
+    ∃ hd body rb ms, ts = hd ++ body ++ [rb] ++ rest ∧ hd ≠ [] ∧ p = tokSpan (cs ++ hd ++ body ++ [rb]) ∧
+      Tiles MemberSpan ms body ∧ methods = ms.filterMap Member.method? ∧ props = ms.filterMap Member.prop? := by
+  have hp := typeDecl_pos fuel c' _ _ _ rest h
+  obtain ⟨_, nt, eq, mk, k, tg, lb, body0, rb, ms, rfl, _, _, _, _, _, _, _, hm, hms, hps⟩ :=
+    typeDecl_interface_inv fuel c' _ _ n c mn fl flp methods props p rest h
+  obtain ⟨body, rfl, htiles⟩ := many_tiles MemberSpan fuel _ (member fuel)
+    (fun ts a r h => by obtain ⟨pre, h1, _, h2⟩ := member_span fuel ts a r h; exact ⟨pre, h1, h2⟩) fuel _ _ _ hm
+  refine ⟨nt :: eq :: (mk ++ k :: (tg ++ [lb])), body, rb, ms, by simp, by simp, ?_, htiles, hms, hps⟩
+  have hts : cs ++ nt :: eq :: (mk ++ k :: (tg ++ lb :: (body ++ rb :: rest)))
+      = (cs ++ nt :: eq :: (mk ++ k :: (tg ++ [lb])) ++ body ++ [rb]) ++ rest := by simp
+  show (Decl.interface n c mn fl flp methods props p).pos = _
+  rw [hp, hts, spanPos_eq_tokSpan]
+
 end Pydjinni.Front
